@@ -283,7 +283,7 @@ func init() {
 		ID:    "C11",
 		Title: "Server messages and environment changes are surfaced exactly once",
 		Pkgs:  []string{"./tds"},
-		Funcs: []string{`^\(\*tds\.Channel\)\.(handleSpecialPackage|callEnvChangeHooks|callEEDHooks|RegisterEEDHooks|RegisterEnvChangeHooks|tryParsePackage)$`},
+		Funcs: []string{`^\(\*tds\.Channel\)\.(handleSpecialPackage|callEnvChangeHooks|callEEDHooks|RegisterEEDHooks|RegisterEnvChangeHooks|tryParsePackage)$`, `^\(\*tds\.(EnvChangePackage|EnvChangePackageField)\)\.ReadFrom$`},
 		Assumptions: []string{
 			"hooks are client code that cannot reach unexported library state (functype contracts of EEDHook / EnvChangeHook)",
 			"strconv.Atoi is modelled natively (result unconstrained on success)",
@@ -354,6 +354,35 @@ func init() {
 			"proved (unbounded, all field values that fit the width of the length field): the length field written after the token byte equals the number of bytes that follow it for CURCLOSE, CURDELETE, CURFETCH, CURINFO, CUROPEN, CURUPDATE, EED, ERROR, OPTIONCMD (16 bit), LANGUAGE (32 bit) and MSG (8 bit); DONE has the fixed size 9; every writer only appends; the login record has its fixed layout with oversized fields rejected (see C09); an environment change member is always read into a zeroed member",
 			"bounded: read-back equality for the package types listed in the bound",
 			"unclaimed: the length clause of ENVCHANGE (needs a sum invariant the solvers time out on) and LOGINACK (the length is a struct field supplied by the caller); CAPABILITY is outside the generator's subset (invalid basic type in its value mask code)",
+		},
+	}
+	properties["C12"] = &Property{
+		ID:    "C12",
+		Title: "Logical channels are isolated and correctly routed under concurrency",
+		Pkgs:  []string{"./tds"},
+		Funcs: []string{`^\(\*tds\.Conn\)\.(getValidChannelId|NewChannel)$`, `^\(\*tds\.Channel\)\.(sendPacket|WritePacket)$`, `^tds\.NewPacketQueue$`},
+		Assumptions: []string{
+			"SEQUENTIAL ONLY: goroutines, interleavings and data races are not modelled by the generator; every statement below is about one call executing alone. The property's quantifier over interleavings (and the race-freedom clause) is not decided.",
+			"the routing step itself (Conn.ReadFrom looks the channel up in a map of pointers by the id in the packet header) is outside the generator's subset and not under contract",
+			"sync/atomic and sync.RWMutex are modelled as atomic / no-ops",
+		},
+		Notes: []string{
+			"proved (sequential, unbounded): getValidChannelId returns an id in 0..65535 that is not a key of the connection's channel map and advances the counter past it; NewChannel returns a fresh channel wired to the connection whose id was not in use, and for a logical channel (id > 0) succeeds only after a header-only acknowledgement was received as the first package; every outgoing packet of a logical channel carries the channel id and the packet numbers count up modulo 256; header-only packets are queued as *HeaderOnlyPackage, the type NewChannel expects",
+			"not decided: distinct ids under concurrent NewChannel calls (getValidChannelId reads the counter non-atomically before incrementing it), ordering of deliveries across goroutines, absence of data races",
+		},
+	}
+	properties["C13"] = &Property{
+		ID:    "C13",
+		Title: "Cancelled or closed channels never block and never deliver",
+		Pkgs:  []string{"./tds"},
+		Funcs: []string{`^\(\*tds\.Channel\)\.(NextPackage|QueuePackage|SendRemainingPackets|SendPackage|WritePacket|Close|Reset)$`},
+		Assumptions: []string{
+			"SEQUENTIAL ONLY: goroutines, blocking, time and context cancellation are not modelled (a select is an arbitrary choice among its cases); the never-blocks / returns-promptly / bounded-time clauses of the property are not decided",
+			"sync.RWMutex is modelled as a no-op; the recursive read lock in SendRemainingPackets -> Reset and sends on the package channel under the read lock are outside what the contracts express",
+		},
+		Notes: []string{
+			"proved (sequential, unbounded): on a closed channel NextPackage, QueuePackage, SendRemainingPackets and SendPackage return an error matching ErrChannelClosed, deliver no package and leave the wire and the transmit queue untouched; WritePacket puts nothing on the package channel of a closed channel; Close marks the channel closed and closes the package channel exactly once (a second Close reports ErrChannelClosed)",
+			"not decided: promptness after cancellation, that a send with a cancelled context writes nothing (needs the link between a context's Done channel and its Err, not modelled), bounded-time Close, Conn.Close",
 		},
 	}
 }
